@@ -94,6 +94,7 @@ func (w *_watcher) run() {
 	var curVersion string
 
 	var retry *time.Timer
+	retrych := make(chan string)
 
 mainloop:
 	for {
@@ -117,13 +118,24 @@ mainloop:
 			outch = make(chan Event, EventBufsiz)
 			curVersion = vsn
 
+		case vsn := <-retrych:
+			if retry == nil {
+				// superseded by a reset
+				continue
+			}
+			retry = nil
+			w.log.Debugf("reconnecting at version %v", vsn)
+
+			// events already received stay readable: outch is kept
+			session.stop()
+			session = newWatchSession(ctx, w.log, w.client, vsn)
+
 		case <-session.done():
 			w.log.Debugf("session done.  retrying version %v in %v", curVersion, watchRetryDelay)
 
 			session.stop()
 			session = nullWatchSession{}
-			outch = nil
-			retry = w.scheduleRetry(w.resetch, curVersion)
+			retry = w.scheduleRetry(retrych, curVersion)
 
 		case evt := <-session.events():
 
